@@ -211,8 +211,8 @@ theorem seqAfterUpdate_w {Q : Rollapp → Prop} (hc : QClosed Q) {s s' : St} {m 
   · cases e
   · rename_i prop hg
     dsimp only at e
-    have w1 : W Q (setSeq s { prop with dishonor := prop.dishonor - min s.p.dishonorSU prop.dishonor }) :=
-      ⟨w.own.setSeq (q' := { prop with dishonor := prop.dishonor - min s.p.dishonorSU prop.dishonor }) (q0 := prop)
+    have w1 : W Q (setSeq s { prop with dishonor := prop.dishonor - min s.sqp.dishonorSU prop.dishonor }) :=
+      ⟨w.own.setSeq (q' := { prop with dishonor := prop.dishonor - min s.sqp.dishonorSU prop.dishonor }) (q0 := prop)
           (by show getSeq s prop.addr = some prop; rw [getSeq_addr hg]; exact hg) rfl,
         w.chain.ras_eq rfl, w.ids, w.hpos, RaAll.of_ras_eq w.q rfl⟩
     split at e
